@@ -386,13 +386,13 @@ def expectedDerefNodePtrStmts : List String := [
 
 theorem derefNodePtr_as_modelled : Generated.MkvsCacheFacts.derefNodePtrStmts = expectedDerefNodePtrStmts := by decide
 
-/-- Where the operations dereference: once per visited pointer in `doGet`, `doInsert`, `doNext`; `doRemove` also dereferences both children on the way back (the siblings counted by `Trie.removeDerefs`). -/
+/-- Where the operations dereference: once per visited pointer in `doGet`, `doInsert`, `doNext`; `doRemove` also dereferences both children, once before the recursion (since /repo dd71025: a failed fetch must not leave a half-applied removal) and once on the way back — the same pointers, so the DISTINCT dereferenced nodes are still the path and the siblings counted by `Trie.removeDerefs`, which is what `cache_transparent` and `CacheNeed` are stated over. -/
 def expectedDerefCallSites : List String := [
   "cache.go:derefNodePtr:1",
   "insert.go:doInsert:1",
   "iterator.go:doNext:1",
   "lookup.go:doGet:1",
-  "remove.go:doRemove:3"]
+  "remove.go:doRemove:5"]
 
 theorem deref_call_sites_as_modelled : Generated.MkvsCacheFacts.derefCallSites = expectedDerefCallSites := by decide
 
